@@ -1,5 +1,632 @@
-//! C07 — not implemented yet.
+//! C07 — backend and build-configuration independence of all SIMD-backed types.
+#![allow(deprecated, unused_braces)]
+use proptest::prelude::*;
+use proptest::strategy::ValueTree;
+use proptest::test_runner::{Config, RngAlgorithm, RngSeed, TestRunner};
+use serde_json::json;
+use vcore::*;
+
+/// variant-independent flattened observation of one call
+#[derive(Clone, Debug, Default)]
+pub struct CObs {
+    pub w: Vec<u64>,
+    pub k: Vec<u8>,
+    pub g: Vec<u32>,
+    pub strs: Vec<String>,
+}
+pub struct ApiInfo {
+    pub id: u32,
+    pub ty: &'static str,
+    pub name: &'static str,
+    pub sig: &'static str,
+    pub width: u8,
+    pub present: bool,
+}
+pub const K_F32: u8 = 0;
+pub const K_F64: u8 = 1;
+pub const K_STR: u8 = 3;
+
+pub type RunFn = fn(u32, &[u64], Option<&mut Vec<u8>>) -> Result<CObs, String>;
+
+mod simd {
+    use ::glam_simd as glam;
+    include!(concat!(env!("CARGO_MANIFEST_DIR"), "/../apisupport/api_support.rs"));
+    include!(concat!(env!("CARGO_MANIFEST_DIR"), "/../gen/api_table_sse2.rs"));
+    include!("bridge.rs");
+}
+mod scalar {
+    use ::glam_scalar as glam;
+    include!(concat!(env!("CARGO_MANIFEST_DIR"), "/../apisupport/api_support.rs"));
+    include!(concat!(env!("CARGO_MANIFEST_DIR"), "/../gen/api_table_scalar.rs"));
+    include!("bridge.rs");
+}
+#[cfg(feature = "core")]
+mod core_simd {
+    use ::glam_core as glam;
+    include!(concat!(env!("CARGO_MANIFEST_DIR"), "/../apisupport/api_support.rs"));
+    include!(concat!(env!("CARGO_MANIFEST_DIR"), "/../gen/api_table_coresimd.rs"));
+    include!("bridge.rs");
+}
+
+pub const NW: usize = 48;
+pub const MAXSTEPS: usize = 8;
+const K: f64 = 16.0;
+const EPS: f64 = 1.1920929e-7; // f32::EPSILON = 2u
+
+const SIMD_TYPES: [&str; 10] = ["Vec3A", "Vec4", "Quat", "Mat2", "Mat3A", "Mat4", "Affine2", "Affine3A", "BVec3A", "BVec4A"];
+
+fn mentions_simd_type(e: &ApiInfo) -> bool {
+    if SIMD_TYPES.contains(&e.ty) {
+        return true;
+    }
+    e.sig.split(|c: char| !c.is_alphanumeric()).any(|tok| SIMD_TYPES.contains(&tok))
+}
+
+/// entries compared between `test` and `reference`
+fn entries(test: &[ApiInfo], reference: &[ApiInfo]) -> Vec<u32> {
+    test.iter().zip(reference.iter()).filter(|(a, b)| a.present && b.present && a.width == 32 && mentions_simd_type(a)).map(|(a, _)| a.id).collect()
+}
+
+/// finite, moderate-magnitude words (products of a few of them neither overflow nor underflow) plus exact zeros
+fn moderate() -> BoxedStrategy<u64> {
+    prop_oneof![
+        40 => (121u32..=133, 0u32..(1 << 23), any::<bool>()).prop_map(|(e, m, s)| (((s as u32) << 31) | (e << 23) | m) as u64),
+        15 => (117u32..=137, 0u32..(1 << 23), any::<bool>()).prop_map(|(e, m, s)| (((s as u32) << 31) | (e << 23) | m) as u64),
+        20 => (-8i32..=8, 0u8..3).prop_map(|(k, h)| ((k as f32) + [0.0f32, 0.5, 0.25][h as usize]).to_bits() as u64),
+        10 => prop_oneof![Just(0u64), Just(0x8000_0000u64)],
+        15 => proptest::sample::select(vec![1.0f32, -1.0, 0.5, 2.0, -2.0, 0.70710677, -0.70710677, 3.1415927, 1.5707964, 0.1, 10.0]).prop_map(|x| x.to_bits() as u64),
+    ]
+    .boxed()
+}
+
+#[inline]
+fn f(w: u64) -> f32 {
+    f32::from_bits(w as u32)
+}
+
+/// norm-wise perturbation of the float words (pattern 0 = all up, 1 = all down, otherwise hashed signs)
+fn perturb(w: &[u64], kinds: &[u8], pattern: u64, seed: u64) -> Vec<u64> {
+    let mut out = w.to_vec();
+    let n = kinds.len().min(w.len());
+    for i in 0..n {
+        if kinds[i] != 1 {
+            continue;
+        }
+        let x = f(w[i]);
+        if !x.is_finite() {
+            continue;
+        }
+        let mut norm = x.abs();
+        for j in i.saturating_sub(3)..(i + 4).min(n) {
+            if kinds[j] == 1 {
+                let y = f(w[j]).abs();
+                if y.is_finite() && y > norm {
+                    norm = y;
+                }
+            }
+        }
+        let h = mix(mix(seed, pattern), i as u64);
+        let sign = match pattern {
+            0 => 1.0f32,
+            1 => -1.0,
+            _ => {
+                if h & 1 == 0 {
+                    1.0
+                } else {
+                    -1.0
+                }
+            }
+        };
+        let mag = 1.0 + ((h >> 8) % 5) as f32 * 0.25 * if pattern >= 10 { 3.0 } else { 1.0 }; // 1..2 eps (1..4 when escalated)
+        let d = sign * mag * f32::EPSILON * norm;
+        let y = x + d;
+        // make sure a non-zero value really moves
+        let y = if y == x && norm > 0.0 && x != 0.0 { f32::from_bits((x.to_bits() as i32 + if (d > 0.0) == (x > 0.0) { 1 } else { -1 }) as u32) } else { y };
+        out[i] = y.to_bits() as u64;
+    }
+    out
+}
+
+pub enum Verdict {
+    Ok { ratio: f64, boundary: bool, identical: bool, amplifies: bool },
+    Bad(String),
+}
+
+fn describe(o: &CObs) -> String {
+    let mut s = String::new();
+    let mut si = 0;
+    for i in 0..o.w.len() {
+        match o.k[i] {
+            K_F32 => s += &format!("{:?} ", f(o.w[i])),
+            K_F64 => s += &format!("{:?} ", f64::from_bits(o.w[i])),
+            K_STR => {
+                s += &format!("{:?} ", o.strs.get(si));
+                si += 1
+            }
+            _ => s += &format!("#{} ", o.w[i] as i64),
+        }
+    }
+    s
+}
+
+/// Compare the test backend's observation with the reference's, given the reference's observations on perturbed inputs.
+fn compare(t: &CObs, r: &CObs, pert: &[Result<CObs, String>], extra_abs: f64) -> Verdict {
+    if t.strs != r.strs {
+        return Verdict::Bad(format!("formatted output differs: {:?} vs reference {:?}", t.strs, r.strs));
+    }
+    let same_shape = |p: &CObs| p.k == r.k;
+    if t.k != r.k {
+        // discrete outcome (Option tag / length) differs: allowed only if the reference itself flips nearby
+        let flips = pert.iter().any(|p| match p {
+            Ok(p) => !same_shape(p),
+            Err(_) => true,
+        });
+        if flips {
+            return Verdict::Ok { ratio: 0.0, boundary: true, identical: false, amplifies: false };
+        }
+        return Verdict::Bad(format!("shape of the result differs: [{}] vs reference [{}]", describe(t), describe(r)));
+    }
+    let n = r.w.len();
+    // per group: delta and scale
+    let ng = r.g.iter().copied().max().unwrap_or(0) as usize + 1;
+    let mut delta = vec![0.0f64; ng];
+    let mut scale = vec![0.0f64; ng];
+    let mut unstable = vec![false; ng];
+    for i in 0..n {
+        if r.k[i] == K_F32 {
+            let b = f(r.w[i]) as f64;
+            let g = r.g[i] as usize;
+            if b.is_finite() {
+                scale[g] = scale[g].max(b.abs());
+            } else {
+                unstable[g] = true;
+            }
+            for p in pert {
+                match p {
+                    Ok(p) if same_shape(p) => {
+                        let c = f(p.w[i]) as f64;
+                        if c.is_finite() && b.is_finite() {
+                            delta[g] = delta[g].max((c - b).abs());
+                        } else if !(c.is_nan() && b.is_nan()) && c != b {
+                            unstable[g] = true;
+                        }
+                    }
+                    _ => unstable[g] = true,
+                }
+            }
+        }
+    }
+    let mut worst = 0.0f64;
+    let mut boundary = false;
+    let mut identical = true;
+    let mut amplifies = false;
+    for i in 0..n {
+        if t.w[i] == r.w[i] {
+            continue;
+        }
+        identical = false;
+        match r.k[i] {
+            K_F32 => {
+                let (a, b) = (f(t.w[i]) as f64, f(r.w[i]) as f64);
+                if a.is_nan() && b.is_nan() {
+                    continue;
+                }
+                if a == b {
+                    continue; // -0 vs +0
+                }
+                let g = r.g[i] as usize;
+                if unstable[g] {
+                    boundary = true;
+                    continue;
+                }
+                let tol = K * (delta[g] + 0.5 * EPS * scale[g]) + extra_abs;
+                let d = (a - b).abs();
+                let ratio = if d.is_finite() { d / tol } else { f64::INFINITY };
+                if ratio > worst {
+                    worst = ratio;
+                }
+            }
+            K_F64 => {
+                // f64 results of f32 arguments (as_dvec etc.) are exact conversions: must be identical
+                return Verdict::Bad(format!("f64 result word {i} differs: [{}] vs reference [{}]", describe(t), describe(r)));
+            }
+            _ => {
+                let flips = pert.iter().any(|p| match p {
+                    Ok(p) => !same_shape(p) || p.w[i] != r.w[i],
+                    Err(_) => true,
+                });
+                if flips {
+                    boundary = true;
+                } else {
+                    return Verdict::Bad(format!("discrete result word {i} differs and the reference does not flip in the neighbourhood: [{}] vs reference [{}]", describe(t), describe(r)));
+                }
+            }
+        }
+    }
+    for g in 0..ng {
+        if delta[g] > 4.0 * EPS * scale[g] && scale[g] > 0.0 {
+            amplifies = true;
+        }
+    }
+    if worst > 1.0 {
+        return Verdict::Bad(format!("differs by {:.3} x the re-association tolerance (K = {K}): [{}] vs reference [{}]", worst, describe(t), describe(r)));
+    }
+    Verdict::Ok { ratio: worst, boundary, identical, amplifies }
+}
+
+/// documented approximation differences between backends get an absolute allowance (DESIGN.md section 4)
+fn extra_abs(e: &ApiInfo) -> f64 {
+    if e.ty == "Quat" && (e.name == "slerp" || e.name == "rotate_towards") {
+        4e-6
+    } else {
+        0.0
+    }
+}
+
+/// One lock-step operation: returns the reference observation (to be carried into the next step).
+fn step(test: RunFn, reference: RunFn, api: &[ApiInfo], id: u32, args: &[u64], pseed: u64, t: &mut Tally, pair: &str) -> Result<Option<CObs>, Fail> {
+    let e = &api[id as usize];
+    let mut kinds = vec![];
+    let r = reference(id, args, Some(&mut kinds));
+    let tt = test(id, args, None);
+    let mk = |m: String| Fail::new(format!("C07/{}/{}/{}", pair, e.ty, e.name), e.sig, format!("{m}; call #{} {} :: {}; arg words {:?}", e.id, e.ty, e.sig, hexwords(&args[..kinds.len().min(args.len())])));
+    let (r, tt) = match (r, tt) {
+        (Ok(r), Ok(tt)) => (r, tt),
+        (Err(_), Err(_)) => return Ok(None),
+        (a, b) => return Err(mk(format!("one backend panicked: reference {:?}, test {:?}", a.err(), b.err()))),
+    };
+    let mut pert: Vec<Result<CObs, String>> = (0..10u64).map(|p| reference(id, &perturb(args, &kinds, p, pseed), None)).collect();
+    let mut v = compare(&tt, &r, &pert, extra_abs(e));
+    if let Verdict::Bad(_) = v {
+        // escalate: 256 further sign patterns with 1..4 eps magnitudes before anything is reported
+        pert.extend((10..266u64).map(|p| reference(id, &perturb(args, &kinds, p, pseed), None)));
+        v = compare(&tt, &r, &pert, extra_abs(e));
+        t.class("escalated");
+    }
+    match v {
+        Verdict::Bad(m) => Err(mk(m)),
+        Verdict::Ok { ratio, boundary, identical, amplifies } => {
+            t.ratio(&format!("{}::{}", e.ty, e.name), ratio);
+            if boundary {
+                t.class("boundary");
+            } else if identical {
+                t.class("bit-identical");
+            } else {
+                t.class("differs-within-tolerance");
+            }
+            let discrete = r.k.iter().any(|k| *k >= 2);
+            if !boundary && (amplifies || discrete || !identical) {
+                t.nontrivial(mix(hash_str(pair), mix(id as u64, fnv(args))));
+                if t.want_sample() && id % 13 == 0 {
+                    t.sample(json!({"pair": pair, "call": format!("{} :: {}", e.ty, e.sig), "args": hexwords(&args[..kinds.len().min(12)]), "reference": describe(&r), "test": describe(&tt)}));
+                }
+            }
+            Ok(Some(r))
+        }
+    }
+}
+
+/// words: nsteps, perturb_seed, then per step: selector, args[NW]
+fn program_check(test: RunFn, reference: RunFn, api: &'static [ApiInfo], ids: &'static [u32], pair: &'static str) -> impl Fn(&[u64], &mut Tally) -> Result<(), Fail> + Sync {
+    move |w: &[u64], t: &mut Tally| {
+        let nsteps = (w[0] as usize).min(MAXSTEPS);
+        let pseed = w[1];
+        t.eval(1);
+        t.class(&format!("program-len-{nsteps}"));
+        let mut carry: Vec<u64> = vec![];
+        for st in 0..nsteps {
+            let base = 2 + st * (NW + 1);
+            let sel = w[base];
+            let id = ids[((sel as u128 * ids.len() as u128) >> 16).min(ids.len() as u128 - 1) as usize];
+            let mut args: Vec<u64> = w[base + 1..base + 1 + NW].to_vec();
+            if !carry.is_empty() {
+                // resynchronisation: feed both backends the bit patterns the reference produced
+                for j in 0..NW {
+                    let h = mix(sel, j as u64);
+                    if h % 2 == 0 {
+                        args[j] = carry[(h >> 8) as usize % carry.len()];
+                    }
+                }
+            }
+            t.class_n("ops", 1);
+            match step(test, reference, api, id, &args, pseed, t, pair)? {
+                None => {}
+                Some(r) => {
+                    for i in 0..r.w.len() {
+                        if r.k[i] == K_F32 {
+                            let x = f(r.w[i]).abs();
+                            if x == 0.0 || (x.is_finite() && x > 1.0 / 65536.0 && x < 65536.0) {
+                                carry.push(r.w[i]);
+                            }
+                        }
+                    }
+                    if carry.len() > 64 {
+                        let k = carry.len() - 64;
+                        carry.drain(0..k);
+                    }
+                }
+            }
+        }
+        Ok(())
+    }
+}
+
+fn program_strategy() -> BoxedStrategy<Vec<u64>> {
+    let step = (0u64..65536, proptest::collection::vec(moderate(), NW)).prop_map(|(s, a)| {
+        let mut v = vec![s];
+        v.extend(a);
+        v
+    });
+    (any::<u32>(), proptest::collection::vec(step, 1..=MAXSTEPS))
+        .prop_map(|(ps, steps)| {
+            let mut h = vec![steps.len() as u64, ps as u64];
+            for s in steps {
+                h.extend(s);
+            }
+            h.resize(2 + MAXSTEPS * (NW + 1), 0);
+            h
+        })
+        .boxed()
+}
+
+/// every compared entry at least `per` times as a single operation (words: id-index, perturb_seed, args[NW])
+fn single_check(test: RunFn, reference: RunFn, api: &'static [ApiInfo], ids: &'static [u32], pair: &'static str) -> impl Fn(&[u64], &mut Tally) -> Result<(), Fail> + Sync {
+    move |w: &[u64], t: &mut Tally| {
+        let id = ids[(w[0] as usize).min(ids.len() - 1)];
+        t.eval(1);
+        step(test, reference, api, id, &w[2..2 + NW], w[1], t, pair).map(|_| ())
+    }
+}
+
+// ---------------------------------------------------------------------------------------------
+// (b) target-feature independence: a deterministic case stream is evaluated in every build and a
+// hash per step is written to a side file; the driver compares the files of different builds.
+
+fn lattice_or_moderate() -> BoxedStrategy<u64> {
+    prop_oneof![60 => moderate(), 40 => lattice::lat_f32()].boxed()
+}
+
+fn canon_nan(w: u64, k: u8) -> u64 {
+    if k == K_F32 && f(w).is_nan() {
+        0x7fc0_0000
+    } else if k == K_F64 && f64::from_bits(w).is_nan() {
+        0x7ff8_0000_0000_0000
+    } else {
+        w
+    }
+}
+
+fn obs_hash(o: &Result<CObs, String>) -> u64 {
+    match o {
+        Err(m) => hash_str(if m.starts_with("panic") { "panic" } else { "absent" }),
+        Ok(o) => {
+            // Rust leaves sign and payload of an arithmetic NaN result unspecified (they depend on operand order in
+            // the instruction chosen), so "bit-for-bit" is decided with all NaNs identified
+            let canon: Vec<u64> = (0..o.w.len()).map(|i| canon_nan(o.w[i], o.k[i])).collect();
+            let mut h = fnv(&canon);
+            for s in &o.strs {
+                h = mix(h, hash_str(s));
+            }
+            mix(h, o.k.len() as u64)
+        }
+    }
+}
+
+/// evaluates an unsynchronised chain (outputs of this build feed the next step) and returns one hash per step
+fn chain_eval(run: RunFn, ids: &[u32], w: &[u64]) -> Vec<u64> {
+    let nsteps = (w[0] as usize).min(MAXSTEPS);
+    let mut carry: Vec<u64> = vec![];
+    let mut out = vec![];
+    for st in 0..nsteps {
+        let base = 2 + st * (NW + 1);
+        let sel = w[base];
+        let id = ids[((sel as u128 * ids.len() as u128) >> 16).min(ids.len() as u128 - 1) as usize];
+        let mut args: Vec<u64> = w[base + 1..base + 1 + NW].to_vec();
+        if !carry.is_empty() {
+            for j in 0..NW {
+                let h = mix(sel, j as u64);
+                if h % 2 == 0 {
+                    args[j] = carry[(h >> 8) as usize % carry.len()];
+                }
+            }
+        }
+        let r = run(id, &args, None);
+        out.push(mix(obs_hash(&r), id as u64));
+        if let Ok(r) = r {
+            for i in 0..r.w.len() {
+                if r.k[i] == K_F32 {
+                    carry.push(canon_nan(r.w[i], K_F32));
+                }
+            }
+            if carry.len() > 64 {
+                let k = carry.len() - 64;
+                carry.drain(0..k);
+            }
+        }
+    }
+    out
+}
+
+fn xbuild_strategy() -> BoxedStrategy<Vec<u64>> {
+    let step = (0u64..65536, proptest::collection::vec(lattice_or_moderate(), NW)).prop_map(|(s, a)| {
+        let mut v = vec![s];
+        v.extend(a);
+        v
+    });
+    proptest::collection::vec(step, 1..=MAXSTEPS)
+        .prop_map(|steps| {
+            let mut h = vec![steps.len() as u64, 0];
+            for s in steps {
+                h.extend(s);
+            }
+            h.resize(2 + MAXSTEPS * (NW + 1), 0);
+            h
+        })
+        .boxed()
+}
+
+/// deterministic stream of cases from proptest's generator (no failure logic: the comparison happens across processes)
+fn stream(seed: u64, n: usize, strat: &BoxedStrategy<Vec<u64>>) -> Vec<Vec<u64>> {
+    let cfg = Config { failure_persistence: None, rng_algorithm: RngAlgorithm::ChaCha, rng_seed: RngSeed::Fixed(seed), ..Config::default() };
+    let mut runner = TestRunner::new(cfg);
+    (0..n).map(|_| strat.new_tree(&mut runner).expect("tree").current()).collect()
+}
+
+fn xbuild_sub<'a>(name: &'static str, run: RunFn, ids: &'static [u32], args: &'a Args) -> SubCheck<'a> {
+    let out_base = args.out.clone();
+    SubCheck::new(
+        format!("xbuild/{name}"),
+        8,
+        move |env: &mut Env| {
+            let n = env.cases(60_000, 20) as usize;
+            let cases = stream(mix(mix(env.args.seed, hash_str(name)), env.shard as u64), n, &xbuild_strategy());
+            let mut hashes: Vec<u64> = vec![];
+            let mut offsets: Vec<u64> = vec![];
+            for c in &cases {
+                offsets.push(hashes.len() as u64);
+                let hs = chain_eval(run, ids, c);
+                env.tally.eval(1);
+                if hs.len() >= 2 {
+                    env.tally.nontrivial(fnv(c));
+                }
+                env.tally.class(&format!("chain-len-{}", hs.len()));
+                hashes.extend(hs);
+            }
+            if env.tally.want_sample() {
+                env.tally.sample(json!({"xbuild": name, "first_case_words": hexwords(&cases[0][..20]), "step_hashes": hexwords(&hashes[..hashes.len().min(4)])}));
+            }
+            if !out_base.is_empty() {
+                let path = format!("{}.xbuild-{}-{}.bin", out_base, name, env.shard);
+                let mut bytes: Vec<u8> = vec![];
+                bytes.extend((cases.len() as u64).to_le_bytes());
+                for o in &offsets {
+                    bytes.extend(o.to_le_bytes());
+                }
+                for h in &hashes {
+                    bytes.extend(h.to_le_bytes());
+                }
+                std::fs::write(&path, bytes).expect("write xbuild file");
+                env.tally.notes.insert(format!("xbuild_file_{}", env.shard), json!(path));
+            }
+        },
+        // replay: words = [case index as given by the driver is expanded there]; here: evaluate a chain and report its hashes as a "failure" message never - used via --xcase
+        move |w: &[u64], _t: &mut Tally| {
+            let hs = chain_eval(run, ids, w);
+            Err(Fail::new("xbuild-hashes", name, hexwords(&hs).join(",")))
+        },
+    )
+}
+
+fn leak<T>(v: Vec<T>) -> &'static [T] {
+    Box::leak(v.into_boxed_slice())
+}
+
+/// `C07_XCASE=<variant>:<shard>:<index>:<seed>:<n>` prints the words of one case of the xbuild stream (driver use)
+fn xcase_mode() -> bool {
+    let Ok(spec) = std::env::var("C07_XCASE") else { return false };
+    let p: Vec<&str> = spec.split(':').collect();
+    let (name, shard, index, seed, n): (&str, u64, usize, u64, usize) = (p[0], p[1].parse().unwrap(), p[2].parse().unwrap(), p[3].parse().unwrap(), p[4].parse().unwrap());
+    let cases = stream(mix(mix(seed, hash_str(name)), shard), n.min(index + 1), &xbuild_strategy());
+    println!("{}", serde_json::to_string(&hexwords(&cases[index])).unwrap());
+    true
+}
+
+/// `C07_DUMP=<variant> <replay.json>`: print what each step of a chain observes in this build (diagnosis)
+fn dump_mode() -> bool {
+    let Ok(spec) = std::env::var("C07_DUMP") else { return false };
+    let mut it = spec.split_whitespace();
+    let (name, path) = (it.next().unwrap(), it.next().unwrap());
+    let v: serde_json::Value = serde_json::from_str(&std::fs::read_to_string(path).unwrap()).unwrap();
+    let w: Vec<u64> = v["words"].as_array().unwrap().iter().map(|x| u64::from_str_radix(x.as_str().unwrap().trim_start_matches("0x"), 16).unwrap()).collect();
+    let sapi = scalar::api();
+    let api = simd::api();
+    let ids = entries(&api, &sapi);
+    let run: RunFn = if name == "scalar" { scalar::run } else { simd::run };
+    let nsteps = (w[0] as usize).min(MAXSTEPS);
+    let mut carry: Vec<u64> = vec![];
+    for st in 0..nsteps {
+        let base = 2 + st * (NW + 1);
+        let sel = w[base];
+        let id = ids[((sel as u128 * ids.len() as u128) >> 16).min(ids.len() as u128 - 1) as usize];
+        let mut args: Vec<u64> = w[base + 1..base + 1 + NW].to_vec();
+        if !carry.is_empty() {
+            for j in 0..NW {
+                let h = mix(sel, j as u64);
+                if h % 2 == 0 {
+                    args[j] = carry[(h >> 8) as usize % carry.len()];
+                }
+            }
+        }
+        let mut kinds = vec![];
+        let r = run(id, &args, Some(&mut kinds));
+        println!("step {st}: #{} {} :: {}\n  args {:?}\n  -> {}", id, api[id as usize].ty, api[id as usize].sig, args[..kinds.len().min(args.len())].iter().map(|x| format!("{:?}", f(*x))).collect::<Vec<_>>(), match &r { Ok(o) => format!("{} | bits {:?}", describe(o), hexwords(&o.w)), Err(m) => m.clone() });
+        if let Ok(r) = r {
+            for i in 0..r.w.len() {
+                if r.k[i] == K_F32 {
+                    carry.push(canon_nan(r.w[i], K_F32));
+                }
+            }
+        }
+    }
+    true
+}
+
 fn main() {
-    eprintln!("c07: not implemented");
-    std::process::exit(2);
+    if xcase_mode() || dump_mode() {
+        return;
+    }
+    let args = Args::parse();
+    let args: &'static Args = Box::leak(Box::new(args));
+    let mut subs: Vec<SubCheck> = vec![];
+    let sapi = leak(scalar::api());
+    let mut pairs: Vec<(&'static str, RunFn, &'static [ApiInfo])> = vec![];
+    #[cfg(not(feature = "core"))]
+    pairs.push(("simd-vs-scalar", simd::run as RunFn, leak(simd::api())));
+    #[cfg(feature = "core")]
+    pairs.push(("core-vs-scalar", core_simd::run as RunFn, leak(core_simd::api())));
+    for (pair, test, tapi) in pairs {
+        let ids = leak(entries(tapi, sapi));
+        let nids = ids.len();
+        subs.push(SubCheck::new(
+            format!("single/{pair}"),
+            16,
+            move |env: &mut Env| {
+                // every entry `reps` times, sharded by entry index
+                let reps = env.args.cases(100, 20);
+                let r = env.my_range(nids as u64);
+                env.tally.notes.insert("api_entries_compared".into(), json!(nids));
+                let chk = single_check(test, scalar::run, tapi, ids, pair);
+                for idx in r {
+                    let st = (any::<u32>(), proptest::collection::vec(moderate(), NW)).prop_map(move |(ps, a)| {
+                        let mut v = vec![idx, ps as u64];
+                        v.extend(a);
+                        v
+                    });
+                    env.prop(&format!("single-{idx}"), reps as u32, st, &chk);
+                    if env.failed() {
+                        return;
+                    }
+                }
+            },
+            single_check(test, scalar::run, tapi, ids, pair),
+        ));
+        subs.push(SubCheck::new(
+            format!("program/{pair}"),
+            16,
+            move |env: &mut Env| {
+                let n = env.cases(60_000, 20);
+                env.prop("program", n, program_strategy(), &program_check(test, scalar::run, tapi, ids, pair));
+            },
+            program_check(test, scalar::run, tapi, ids, pair),
+        ));
+    }
+    // (b): the same source in another target-feature build must be bit-identical
+    #[cfg(not(feature = "core"))]
+    {
+        let api = leak(simd::api());
+        let ids = leak(entries(api, sapi));
+        subs.push(xbuild_sub("simd", simd::run, ids, args));
+        subs.push(xbuild_sub("scalar", scalar::run, ids, args));
+    }
+    std::process::exit(main_with("C07", "", args, subs));
 }
